@@ -210,6 +210,13 @@ def run_unit(unit, tier):
     if res['status'] == 'fail':
         out['status'] = 'fail'
         for e in res['errors']:
+            if e.get('limit') and not e.get('semantic'):
+                # a query of this function ran out of resources: what the solver did not refute there is NOT proved
+                for (ln, lab, prim) in e['lines']:
+                    f_ = fn_of_line(g, ln) if ln else None
+                    if f_ and f_ not in out.setdefault('limited_fns', []):
+                        out['limited_fns'].append(f_)
+                continue
             # attribute to clause group(s) by span lines; else to function by primary span
             recs = []
             fn = None
